@@ -61,7 +61,7 @@
          static const int sp[9] = {0, 1, 2, 3, 4, 5, 6, 9, -1};
          for (int i = 0; i < 9; i++) { pk[np] = sp[i]; pj[np] = RFind(m, sp[i]); np++; }
          if (n > 16) {
-            const size_t stride = n / 13 + 1; for (size_t i = 3; i < n && np < 32; i += stride) { pk[np] = m[i].k; pj[np] = (int)i; np++; }
+            const size_t stride = n / 5 + 1; for (size_t i = 3; i < n && np < 32; i += stride) { pk[np] = m[i].k; pj[np] = (int)i; np++; }
             const size_t st2 = (n > 1000) ? 7 : 1;  // every entry must be reachable through its bucket
             for (size_t i = 0; i < n; i += st2) { const HKey k(m[i].k); const int * p = x.Get(k); if (!p || *p != m[i].v) CFAIL("query:Get", verif::Fmt("Get(k%d) wrong (entry %u of %u)", m[i].k, (unsigned)i, (unsigned)n)); }
          }
@@ -81,12 +81,13 @@
       // positional access
       {
          size_t idxs[10]; size_t ni = 0;
-         if (n <= 16) ni = 0; else { idxs[ni++] = 0; idxs[ni++] = 1; idxs[ni++] = n / 2 - 1; idxs[ni++] = n / 2; idxs[ni++] = n - 2; idxs[ni++] = n - 1; idxs[ni++] = n; idxs[ni++] = n + 1; }
+         if (n <= 16) ni = 0; else { idxs[ni++] = 0; idxs[ni++] = 1; idxs[ni++] = n - 2; idxs[ni++] = n - 1; idxs[ni++] = n; idxs[ni++] = n / 2 - 1; idxs[ni++] = n / 2; }
          const size_t cnt = (n <= 16) ? n + 2 : ni;
          for (size_t q = 0; q < cnt; q++) {
             const size_t i = (n <= 16) ? q : idxs[q]; const bool ok = i < n;
             const HKey * pk = x.GetKeyAt((uint32)i); const int * pv = x.GetValueAt((uint32)i);
             if ((pk != NULL) != ok || (pv != NULL) != ok || (ok && (pk->id != m[i].k || *pv != m[i].v))) CFAIL("query:GetKeyAt", verif::Fmt("GetKeyAt/GetValueAt(%u) wrong", (unsigned)i));
+            if (n > 16 && q >= 5) continue;   // big tables: the O(n) middle positions get the pointer forms only
             HKey rk(-7); int rv = -5; status_t r1 = x.GetKeyAt((uint32)i, rk), r2 = x.GetValueAt((uint32)i, rv);
             if (r1.IsOK() != ok || r2.IsOK() != ok || (ok && (rk.id != m[i].k || rv != m[i].v)) || (!ok && (r1 != B_BAD_ARGUMENT || r2 != B_BAD_ARGUMENT || rk.id != -7 || rv != -5))) CFAIL("query:GetKeyAt", verif::Fmt("GetKeyAt/GetValueAt(%u,ret) wrong", (unsigned)i));
             if (x.GetKeyAtWithDefault((uint32)i).id != (ok ? m[i].k : -1) || x.GetValueAtWithDefault((uint32)i) != (ok ? m[i].v : 0) || x.GetValueAtWithDefault((uint32)i, 77) != (ok ? m[i].v : 77)) CFAIL("query:GetKeyAtWithDefault", verif::Fmt("Get*AtWithDefault(%u) wrong", (unsigned)i));
@@ -95,8 +96,8 @@
       }
       // value searches
       {
-         const int vals[3] = {2, 5, 77};
-         for (int vi = 0; vi < (n > 1000 ? 1 : 3); vi++) {
+         const int vals[3] = {2, 77, 5};
+         for (int vi = 0; vi < (n > 1000 ? 1 : n > 16 ? 2 : 3); vi++) {
             const int v = vals[vi]; int first = -1, last = -1; for (size_t i = 0; i < n; i++) if (m[i].v == v) { if (first < 0) first = (int)i; last = (int)i; }
             if (x.ContainsValue(v) != (first >= 0) || x.IndexOfValue(v) != first || x.IndexOfValue(v, true) != last) CFAIL("query:IndexOfValue", verif::Fmt("ContainsValue/IndexOfValue(%d) wrong", v));
             const HKey * fk = x.GetFirstKeyWithValue(v); const HKey * lk = x.GetLastKeyWithValue(v);
@@ -186,10 +187,19 @@
          out += 'f'; uint32 idx = x._freeHeadIdx; for (int q = 0; q < 2 && idx != MUSCLE_HASHTABLE_INVALID_SLOT_INDEX; q++) { AppendInt(out, idx); out += '.'; idx = x.GetEntryBucketNext(x.IndexToEntryUnchecked(idx)); }
       }
       out += ':';
-      for (const typename TableT::HashtableEntryBaseType * e = x.IndexToEntryChecked(x._iterHeadIdx); e; e = x.GetEntryIterNextChecked(e)) {
-         AppendInt(out, e->_key.id); out += '.'; AppendInt(out, e->_value);
-         if (layout >= 1) { out += '@'; AppendInt(out, x.EntryToIndexUnchecked(e)); }
-         out += ',';
+      if (x._numItems <= 40) {
+         for (const typename TableT::HashtableEntryBaseType * e = x.IndexToEntryChecked(x._iterHeadIdx); e; e = x.GetEntryIterNextChecked(e)) {
+            AppendInt(out, e->_key.id); out += '.'; AppendInt(out, e->_value);
+            if (layout >= 1) { out += '@'; AppendInt(out, x.EntryToIndexUnchecked(e)); }
+            out += ',';
+         }
+      } else {  // big tables: a 128-bit digest of the same (key, value, slot) sequence instead of its text
+         uint64_t h1 = 0xcbf29ce484222325ULL, h2 = 0x9e3779b97f4a7c15ULL;
+         for (const typename TableT::HashtableEntryBaseType * e = x.IndexToEntryChecked(x._iterHeadIdx); e; e = x.GetEntryIterNextChecked(e)) {
+            const uint64_t a = ((uint64_t)(uint32_t)e->_key.id << 32) | (uint32_t)e->_value, b = (layout >= 1) ? x.EntryToIndexUnchecked(e) : 0;
+            h1 = (h1 ^ a) * 0x100000001b3ULL; h1 = (h1 ^ b) * 0x100000001b3ULL; h2 = verif::Mix64(h2 + a * 0x632be59bd9b4e019ULL + b);
+         }
+         out += 'D'; out.append((const char *)&h1, 8); out.append((const char *)&h2, 8);
       }
       if (layout >= 2 && x._table && x._tableSize <= 64) {
          out += '#';
